@@ -332,7 +332,7 @@ class Session:
                     self.restricted_discharged += 1
                 if fid not in self.known_hits:
                     self.known_hits.append(fid)
-                    print(self.findings[fid]['line'])
+                    print(self._finding_line(fid))
                 self.known_obligations.append(ob.name)
                 return res
             if rv != 'refuted':
@@ -340,6 +340,11 @@ class Session:
                 return res
         self._account(res)
         return res
+
+    def _finding_line(self, fid: str) -> str:
+        """The recorded KNOWN-FINDING line, naming the property this run checks (a finding may affect several)."""
+        import re
+        return re.sub(r'property=C\d\d', f'property={self.prop}', self.findings[fid]['line'], count=1)
 
     def unsupported(self, name: str, reason: str, kind: str = 'post'):
         ob = Obligation(name, self.prop, kind)
@@ -394,7 +399,7 @@ class Session:
         if known:
             if fid not in self.known_hits:
                 self.known_hits.append(fid)
-                print(self.findings[fid]['line'])
+                print(self._finding_line(fid))
             self.known_obligations.append(ob.name)
             self.results.pop()           # not counted as an obligation of the proof
             return
@@ -428,7 +433,7 @@ class Session:
         if finding and finding in self.findings and self.findings[finding].get('status') == 'open':
             if finding not in self.known_hits:
                 self.known_hits.append(finding)
-                print(self.findings[finding]['line'])
+                print(self._finding_line(finding))
             return
         REPLAYS.mkdir(exist_ok=True)
         path = REPLAYS / f"{self.prop}-{_slug(name)}.json"
@@ -465,6 +470,7 @@ class Session:
             'checker_cmd': f'./check {self.prop} {self.tier}',
             'trusted_base': sorted(self.trusted),
             'functions_under_contract': sorted(self.functions),
+            'functions_symbolically_executed': _interpreted(),
             'solver_time_s': round(self.solver_ms / 1000, 3),
             'backends': sorted({r.backend for r in self.results}),
             'samples': samples,
@@ -509,6 +515,16 @@ class Session:
         if self.undecided:
             return 2
         return 0
+
+
+def _interpreted() -> list:
+    """Real wn functions whose bodies the symbolic interpreter executed in this process (callees are executed inline,
+    not abstracted by a contract, unless a contract or stub is registered for them); worker processes not included."""
+    try:
+        from vc.pyvc import interp
+        return sorted(interp.INTERPRETED)
+    except Exception:
+        return []
 
 
 def _slug(s: str) -> str:
